@@ -14,6 +14,10 @@
 //	                          sides of the declared size and prints what must be on the wire and what the reader must
 //	                          do; sweep.go sends real objects of exactly these lengths over real sessions in all modes.
 //	                          Its EDGE records (distances from a limit) place RHP3/RHP4/gateway messages around theirs.
+//	spec/net/Reuse.tla        receiver reuse: the buffer-reusing decoder (length, capacity, reset, chunked growth) over
+//	                          every sequence of data lengths, and "decoding replaces" for any receiver; reuse.go reads
+//	                          real responses of these lengths into one reused real object over real RHP2/RHP3 sessions
+//	                          and decodes every wire type into receivers that already hold another value.
 //	spec/net/Framing.tla      the arithmetic of a limited reader (model checked);
 //	spec/net/FramingTrace.tla validates what the real readers of gateway/RHP2/RHP3/RHP4 did with every RPC object at
 //	                          its maximal, random, just-fitting and over-limit sizes, and with never-ending peers.
@@ -403,7 +407,7 @@ func main() {
 		phases[name] = float64(time.Since(tPhase).Milliseconds()) / 1000
 		tPhase = time.Now()
 	}
-	c.Rule("Sessions: TLC enumerates every conversation of Session.tla (length ≤ MaxMsgs, frame kinds object/error response, ≤ 2 faults out of lenup/lendn/lenhi/nonce/body/pad/tag/trunc/ext on distinct frames) with the demanded outcome; each replayed case = one schedule on one real RHP2 transport pair in one mode (requests renter→host, responses host→renter, raw responses + VerifyTag); non-trivial = at least one fault, or ≥ 2 frames delivered. Size sweep: TLC (FrameSizes.tla) walks every encoded object length within W bytes of a boundary of the RHP2 framing rules (pad / do not pad; at / above the floor of the reader's limit) and per length the caller's limits on both sides of the declared size; one evaluation = one real object of exactly that length moved over a real transport pair in one mode (request, response, raw response), compared with the demanded wire size, verdict, identity and bytes consumed; distinct = distinct (mode, length, limit); repeats in other orders are not counted as distinct. Handshake: every (genesis, unique id)² × in-flight rewrite of version/genesis/unique id; non-trivial = all. Framing: one line = one real object of a stated shape written by the real writer and read by the real reader (or one never-ending stream, or one error response); non-trivial = distinct (object, shape, limit) lines whose message is not empty.")
+	c.Rule("Sessions: TLC enumerates every conversation of Session.tla (length ≤ MaxMsgs, frame kinds object/error response, ≤ 2 faults out of lenup/lendn/lenhi/nonce/body/pad/tag/trunc/ext on distinct frames) with the demanded outcome; each replayed case = one schedule on one real RHP2 transport pair in one mode (requests renter→host, responses host→renter, raw responses + VerifyTag); non-trivial = at least one fault, or ≥ 2 frames delivered. Size sweep: TLC (FrameSizes.tla) walks every encoded object length within W bytes of a boundary of the RHP2 framing rules (pad / do not pad; at / above the floor of the reader's limit) and per length the caller's limits on both sides of the declared size; one evaluation = one real object of exactly that length moved over a real transport pair in one mode (request, response, raw response), compared with the demanded wire size, verdict, identity and bytes consumed; distinct = distinct (mode, length, limit); repeats in other orders are not counted as distinct. Receiver reuse: TLC (Reuse.tla) enumerates every sequence of data lengths (≤ MaxSteps messages) for one reused and for fresh receivers; one evaluation = one real response (RHP2 RPCReadResponse through ReadResponse and through RawResponse; RHP3 ExecuteProgram response / request) read on a real session into that receiver and compared; distinct = (mode, receiver, sequence). Dirty receivers: every DIRTY case (held zero/one/few/many elements × arriving zero/one/few/many; optional set/unset) × every registered wire type of gateway/RHP2/RHP3/RHP4: one evaluation = one real object decoded by the real decoder into a receiver holding another real object, compared with the bytes sent; non-trivial = all but (zero, zero). Handshake: every (genesis, unique id)² × in-flight rewrite of version/genesis/unique id; non-trivial = all. Framing: one line = one real object of a stated shape written by the real writer and read by the real reader (or one never-ending stream, or one error response); non-trivial = distinct (object, shape, limit) lines whose message is not empty.")
 	c.Assume("in-memory net.Pipe pairs with a byte-rewriting proxy stand for the network; deadlines only classify a starved read as 'not delivered'")
 	c.Assume("authentication inside go.sia.tech/mux (gateway, RHP3) is not modelled: there only end-to-end delivery and prefix-safety under a flipped bit are checked")
 	c.Assume("gateway objects have no exported encoder: their wire size is mirrored from the exported encoders of the field types; acceptance is observed on the real stream reader")
@@ -421,6 +425,11 @@ func main() {
 		szm = c.MustTLC(vlib.TLCOpts{SpecDirs: []string{"net"}, Module: "FrameSizes", Config: "FrameSizesMC.cfg", Workers: 2})
 	}()
 	go func() { defer wgSizes.Done(); sizes = loadSizes(c) }()
+	var reuseCases map[string]reuseCase
+	var dirtyCases map[string]dirtyCase
+	var reuseStates int64
+	wgSizes.Add(1)
+	go func() { defer wgSizes.Done(); reuseCases, dirtyCases, reuseStates = loadReuse(c) }()
 	fm := c.MustTLC(vlib.TLCOpts{SpecDirs: []string{"net"}, Module: "Framing", Config: "Framing.cfg", Workers: 8})
 	c.Cov("framing_model_states", fm.Distinct)
 	sessCfgs := []string{"Session3.cfg"} // ≤ 3 frames, ≤ 2 faults
@@ -448,6 +457,9 @@ func main() {
 	})
 	wgSizes.Wait()
 	c.Cov("frame_size_model_states", szm.Distinct)
+	c.Cov("reuse_model_states", reuseStates)
+	c.Cov("reuse_sequences_enumerated", len(reuseCases))
+	c.Cov("dirty_receiver_cases_enumerated", len(dirtyCases))
 	c.Cov("size_cases_enumerated", len(sizes))
 	c.Cov("limit_slacks_enumerated", edgeSlacks)
 	c.Cov("session_cases_enumerated", len(scheds))
@@ -566,6 +578,11 @@ func main() {
 	// size sweep of the RHP2 framing (FrameSizes.tla) over real sessions
 	sw := runSweep(c, sizes, r)
 	phase("rhp2_size_sweep")
+	// receiver reuse (Reuse.tla): sequences into one receiver over real sessions; every wire type into a dirty receiver
+	ru := runReuse(c, reuseCases, r)
+	dt := runDirty(c, dirtyCases, r)
+	selftestReuse(c)
+	phase("receiver_reuse")
 
 	// handshakes
 	hkeys := make([]string, 0, len(hss))
@@ -684,7 +701,7 @@ func main() {
 	}
 	parallel(8, cjobs)
 	wgSlow.Wait()
-	c.Traces(evals + sw.sessions)
+	c.Traces(evals + sw.sessions + ru.sessions)
 	phase("handshakes_keyexchange_conversations")
 
 	// vacuity guards: sessions
@@ -738,7 +755,7 @@ func main() {
 		b, _ := json.Marshal(l)
 		distinct[string(b)] = true
 	}
-	c.Count(evals+sw.evals+int64(len(rec.lines)), nontriv+sw.distinct+int64(len(distinct)))
+	c.Count(evals+sw.evals+ru.evals+dt.evals+int64(len(rec.lines)), nontriv+sw.distinct+ru.distinct+dt.distinct+int64(len(distinct)))
 	objs := make([]string, 0, len(rec.objs))
 	perFam := map[string]int{}
 	for o := range rec.objs {
@@ -866,6 +883,29 @@ func replay(c *vlib.Ctx) {
 		if key != "" {
 			rc.Obs = o
 			c.Violation(key, what, rc)
+		}
+	case "reuse":
+		var run reuseRun
+		json.Unmarshal(f.Case, &run)
+		run.Steps = nil
+		runReuseCase(c, run, func(run reuseRun, st reuseStep) {
+			fmt.Printf("replay receiver reuse %s %s: %+v\n", run.Mode, run.Case.key(), st)
+		})
+	case "dirty":
+		var o dirtyObs
+		json.Unmarshal(f.Case, &o)
+		parts := strings.SplitN(o.Case, "-", 3)
+		found := false
+		for _, cd := range allCodecs() {
+			if cd.fam == o.Fam && cd.name == o.Obj && cd.dir == o.Dir && len(parts) == 3 {
+				found = true
+				again := dirtyDecode(cd, dirtyCase{Kind: parts[0], Prev: parts[1], New: parts[2]}, o.Seed)
+				fmt.Printf("replay dirty receiver %s/%s/%s %s: %+v\n", o.Fam, o.Obj, o.Dir, o.Case, again)
+				judgeDirty(c, again)
+			}
+		}
+		if !found {
+			c.Fatal("unknown wire type %s/%s/%s", o.Fam, o.Obj, o.Dir)
 		}
 	case "size":
 		var ss sweepSession
